@@ -260,7 +260,7 @@ func parseGroup(node *yaml.Node, schema Schema, offsetLine, offsetColumn int, co
 		setKeys[nodeValue(entry.key)] = struct{}{}
 	}
 
-	if _, ok := setKeys["rules"]; ok {
+	if _, ok := setKeys["rules"]; ok || node.Kind == yaml.MappingNode {
 		if _, ok := setKeys["name"]; !ok {
 			group.Error = ParseError{
 				Line: node.Line,
